@@ -99,6 +99,10 @@ pub struct ClientScn {
     /// Run for simulated years (deadlines beyond a single timer's span).
     #[serde(default)]
     pub long: bool,
+    /// Clock jumps (a stalled process / stepped clock): at virtual ms `.0` the clock is advanced by
+    /// `.1` ms at once, so several timers and deliveries become due together.
+    #[serde(default)]
+    pub jumps: Vec<(u64, u64)>,
 }
 
 /// 780 days: below the 2^36 ms (795 days) range of a tokio timer; a paused runtime does not
@@ -125,6 +129,8 @@ pub enum Focus {
     Extreme,
     Independent,
     Trace,
+    /// only long-horizon runs (deadlines 400 days .. 10 years, never answered)
+    Long,
 }
 
 pub fn gen(rng: &mut Rng, focus: Focus) -> ClientScn {
@@ -275,7 +281,7 @@ pub fn gen(rng: &mut Rng, focus: Focus) -> ClientScn {
         Focus::Trace => *rng.pick(&[0u8, 0, 1]),
         _ => 0,
     };
-    let long = focus == Focus::Extreme && rng.chance(250);
+    let long = (focus == Focus::Extreme && rng.chance(250)) || focus == Focus::Long;
     if long {
         // a few never-answered calls whose deadlines lie years ahead
         calls.truncate(2);
@@ -322,6 +328,7 @@ pub fn gen(rng: &mut Rng, focus: Focus) -> ClientScn {
         spurious_permille: if focus == Focus::General && subscriber == 0 && rng.chance(120) { 100 } else { 0 },
         subscriber,
         long,
+        jumps: if focus == Focus::Deadlines && !long && rng.chance(250) { (0..rng.range(1, 2)).map(|_| (rng.range(0, 20), *rng.pick(&[1u64, 3, 10, 40, 200]))).collect() } else { vec![] },
     }
 }
 
@@ -727,6 +734,22 @@ pub fn run(scn: &ClientScn, tape: Tape, logging: bool) -> RunOutput {
                     peer_c.push(mk_response(id, 900_000 + at, false));
                 }));
             }
+            for (at, delta) in scn.jumps.clone() {
+                let sim_c = sim.clone();
+                chaos.push(sim.spawn("clock_jump", async move {
+                    tokio::time::sleep(Duration::from_millis(at)).await;
+                    // a jump models a stalled process / stepped clock *between* polls; time that
+                    // passes in the middle of another task's poll is not something any oracle
+                    // here accounts for
+                    while sim_c.depth() > 1 {
+                        crate::profiles::server::yield_once().await;
+                    }
+                    sim_c.log(EvKind::Fault { kind: "clock_jump", arg: delta as i64 });
+                    sim_c.count("fault.clock_jump");
+                    tokio::time::advance(Duration::from_millis(delta)).await;
+                    sim_c.log(EvKind::Fault { kind: "clock_jump_end", arg: delta as i64 });
+                }));
+            }
             if let Some(at) = scn.drop_handles_at {
                 let (sim_c, handles_c) = (sim.clone(), handles.clone());
                 chaos.push(sim.spawn("drop_handles", async move {
@@ -869,6 +892,24 @@ pub fn check(scn: &ClientScn, log: &[Ev], horizon_reached: bool, sim: &Sim) -> V
     let mut samples_at_idle: Vec<(u64, u64, u64)> = Vec::new();
     let mut dispatch_task: Option<u16> = None;
     let mut panicked = false;
+    // clock jumps: (t_before, t_after)
+    let mut jumps: Vec<(i64, i64)> = Vec::new();
+    for e in log {
+        if let EvKind::Fault { kind: "clock_jump", arg } = &e.kind {
+            jumps.push((e.t, e.t + *arg));
+        }
+    }
+    // a deadline that falls inside a jump can only be acted upon once the jump is over
+    let after_jump = |t0: i64| {
+        let mut t = t0;
+        loop {
+            let t2 = jumps.iter().filter(|(a, b)| *a <= t && t <= *b).map(|(_, b)| *b).max().unwrap_or(t);
+            if t2 == t {
+                return t;
+            }
+            t = t2;
+        }
+    };
     // A call whose deadline lies beyond the run's horizon can legitimately occupy an in-flight
     // slot (and keep others queued) until the run ends: liveness rules do not apply then.
     let far_deadlines = calls_far(scn);
@@ -960,6 +1001,11 @@ pub fn check(scn: &ClientScn, log: &[Ev], horizon_reached: bool, sim: &Sim) -> V
                             id_to_call.insert(*id, *tag as usize);
                             c.id = Some(*id);
                             c.r_send = Some((e.seq, e.t, ok));
+                            if let Item::Req { deadline_ms, .. } = item.as_ref().unwrap() {
+                                if *deadline_ms != c.deadline && scn.subscriber != 2 {
+                                    v.push(viol("C07", "request-deadline", &[], format!("call {tag}: caller's deadline {} ms, request transmitted with deadline {} ms", c.deadline, deadline_ms)));
+                                }
+                            }
                             c.r_span = *span;
                             if scn.subscriber != 2 {
                                 if *trace != c.trace {
@@ -1075,7 +1121,7 @@ pub fn check(scn: &ClientScn, log: &[Ev], horizon_reached: bool, sim: &Sim) -> V
                         v.push(viol("C05", "early", &[], format!("call {i}: DeadlineExceeded at t={rt} < deadline {}", c.deadline)));
                     }
                     if let Some((_, ts, true)) = c.r_send {
-                        let bound = c.deadline.max(ts) + 2;
+                        let bound = after_jump(c.deadline.max(ts)) + 2;
                         if *rt > bound && !extreme {
                             v.push(viol("C05", "late", &[], format!("call {i}: DeadlineExceeded at t={rt}, deadline {} (sent at {ts})", c.deadline)));
                         }
@@ -1137,7 +1183,8 @@ pub fn check(scn: &ClientScn, log: &[Ev], horizon_reached: bool, sim: &Sim) -> V
         let polls: Vec<i64> = log.iter().filter(|e| e.task == dt && matches!(e.kind, EvKind::PollBegin)).map(|e| e.t).collect();
         for (i, c) in calls.iter().enumerate() {
             let Some((rs, ts, true)) = c.r_send else { continue };
-            let due = c.deadline.max(ts);
+            let due0 = c.deadline.max(ts);
+            let due = after_jump(due0);
             if due + 2 > end_t || far_deadlines {
                 continue;
             }
@@ -1151,7 +1198,7 @@ pub fn check(scn: &ClientScn, log: &[Ev], horizon_reached: bool, sim: &Sim) -> V
             if replied_before || abandoned_before || resolved_before || dispatch_over || failed || eof || panicked {
                 continue;
             }
-            if !polls.iter().any(|t| *t >= due && *t <= due + 2) {
+            if !polls.iter().any(|t| *t >= due0 && *t <= due + 2) {
                 v.push(viol("C02", "lost-wake", &["timer"], format!("call {i}: deadline {} (request transmitted at {ts}) passed with no reply, but the dispatch was not polled between t={due} and t={}: the timer did not wake it", c.deadline, due + 2)));
             }
         }
@@ -1192,6 +1239,9 @@ pub fn check(scn: &ClientScn, log: &[Ev], horizon_reached: bool, sim: &Sim) -> V
                     let expired = c.deadline <= *it;
                     if !replied && !expired {
                         v.push(viol("C03", "missing-cancel", &[], format!("call {i} (id {:?}) abandoned at seq {adone}, request on the wire, no cancel by idle point seq {iseq}", c.id)));
+                        if handles_dropped.map(|h| h < *iseq).unwrap_or(false) {
+                            v.push(viol("C10", "drain-stalled", &[], format!("last handle dropped, transport writable, yet the cancel owed for call {i} (id {:?}) is still not transmitted at idle seq {iseq} and the transport is not closed", c.id)));
+                        }
                     }
                 }
             }
